@@ -195,7 +195,12 @@ func (g *c04Gen) goal(depth int) string {
 	case depth <= 0:
 		return g.w()
 	case k < 74:
-		return "catch((" + g.conj(depth-1) + "), " + g.catcher() + ", (" + g.recovery(depth-1) + "))"
+		goal, catcher, rec := g.conj(depth-1), g.catcher(), g.recovery(depth-1)
+		if strings.HasPrefix(catcher, "B") && g.r.Intn(2) == 0 {
+			// log what the catcher was bound to (the copy of the ball; error Contexts are normalised away)
+			rec = "w(caught(" + catcher + ")), " + rec
+		}
+		return "catch((" + goal + "), " + catcher + ", (" + rec + "))"
 	case k < 79:
 		return "(" + g.conj(depth-1) + " ; " + g.conj(depth-1) + ")"
 	case k < 83:
